@@ -138,6 +138,8 @@ def run(ctx):
     c01s.run_loops(ctx, res, thorough)
     # the code lives in IPython cells
     c01s.run_notebook(ctx, res, thorough)
+    # the order in which the calls of an expression are analysed
+    c01s.run_order(ctx, res, thorough)
     pipeline.close_ref()
     # the hypotheses of C01.sig_sound / memo_correct / history_correct on everything that was generated
     res.count("universe_function_versions", uc.functions)
